@@ -69,8 +69,8 @@ ShapeLoc(kind, r) ==          \* r: 5 random integers
   LET c == r[1] % 12  F == LocFocus(kind) IN
   IF c < 4 THEN Lit(PickSeq(F, r[2]))
   ELSE IF c < 6 THEN AnyNum(PickSeq(LocStyles, r[2]))
-  ELSE IF c < 8 THEN Alt(<<PickSeq(F, r[2]), PickSeq(F, r[3])>>)
-  ELSE IF c < 10 THEN Alt(<<PickSeq(F, r[2]), PickSeq(F, r[3]), PickSeq(F, r[4])>>)
+  ELSE IF c < 8 THEN Alt(<<PickSeq(FocusLoc, r[2]), PickSeq(IF r[5] % 3 = 0 THEN F ELSE FocusLoc, r[3])>>)
+  ELSE IF c < 10 THEN Alt(<<PickSeq(FocusLoc, r[2]), PickSeq(FocusLoc, r[3]), PickSeq(IF r[5] % 3 = 0 THEN F ELSE FocusLoc, r[4])>>)
   ELSE IF c < 11 THEN PickSeq(Classes, r[2])
   ELSE Lit(LocOverflow(kind))
 
@@ -133,13 +133,14 @@ NearLocPart(l, l2, l3, x, y, z) ==
   ELSE IF c < 28 THEN Part("num", "", <<Max32>>, TRUE, "4294967295")
   ELSE IF c < 29 THEN Part("set", "", <<Ovf16, l>>, TRUE, "(65536|" \o T(l) \o ")")
   ELSE IF c < 30 THEN Part("set", "", <<l, l>>, TRUE, "(" \o T(l) \o "|" \o T(l) \o ")")
+  ELSE IF c < 31 THEN Part("set", "", <<l>>, TRUE, "(" \o T(l) \o ")")
   ELSE Part("x", "", <<l, l2, l3>>, TRUE,
             PickSeq(<<"(" \o T(l) \o "|(" \o T(l2) \o "|" \o T(l3) \o "))",
                       "((" \o T(l) \o "|" \o T(l2) \o ")|" \o T(l3) \o ")",
                       "(?:" \o T(l) \o "|" \o T(l2) \o ")", "(" \o T(l) \o "|" \o T(l2) \o ")?",
                       "1[0-9]", "[0-9]", "[^5]", ".", ".+", "\\d*", "[0-9]*", "\\d{2}", "\\d{1,3}",
                       T(l) \o "?", T(l) \o "+", T(l) \o ".*", ".*" \o T(l), "", T(l) \o ":" \o T(l2),
-                      "(.*)", "(" \o T(l) \o ")", "[0-9]+$", T(l) \o "$">>, y))
+                      "(.*)">>, y))
 
 (* the compiler's number parsing (strconv.ParseUint, strings.TrimSpace) and its suffix test
    for the wildcard accept more spellings than the canonical one; LenientReading is the shape
@@ -184,13 +185,18 @@ NearPattern(kind, r) ==       \* r: 16 random integers
       A     == NearASPart(a, a2, r[8], r[9])
       B     == NearLocPart(l, l2, l3, r[10], r[11], r[12])
       C     == NearLocPart(l2, l, l3, r[13], r[11], r[12])
-      L     == IF r[14] % 8 = 0 THEN "" ELSE "^"
-      R     == IF r[15] % 8 = 0 THEN "" ELSE "$"
       tail  == IF r[16] % 10 < 8 THEN ""
                ELSE PickSeq(<<"|^" \o T(a2) \o ":" \o T(l2) \o "$", "|" \o T(l3) \o "$", "|^" \o T(a2) \o ":.*$", "|x">>, r[16] \div 10)
       body  == A.s \o ":" \o B.s \o (IF kind = "large" THEN ":" \o C.s ELSE "")
-      plain == /\ r[14] % 8 = 1 /\ tail = "" /\ A.k = "num" /\ B.k = "num" /\ B.q # "space"
-               /\ (kind = "large" => C.k = "num" /\ C.q # "space")
+      (* a bare digits:digits string is what the documentation calls a community VALUE: the
+         configuration front end anchors it ("plain"); no other text may be left without any
+         anchor unless it cannot be mistaken for one (its local part ends in a wildcard) *)
+      digits == /\ tail = "" /\ A.k = "num" /\ B.k = "num" /\ B.q # "space"
+                /\ (kind = "large" => C.k = "num" /\ C.q # "space")
+      L     == IF r[14] % 8 < 2 THEN "" ELSE "^"
+      R0    == IF r[14] % 8 = 1 \/ r[15] % 8 = 0 THEN "" ELSE "$"
+      plain == L = "" /\ R0 = "" /\ digits
+      R     == IF L = "" /\ R0 = "" /\ tail = "" /\ ~digits /\ ~(kind # "large" /\ B.k = "any3") THEN "$" ELSE R0
       text  == IF plain THEN "^" \o body \o "$" ELSE L \o body \o R \o tail
   IN [st |-> st, stcfg |-> stcfg, cfg |-> IF plain THEN body ELSE text, text |-> text,
       L |-> IF plain THEN "^" ELSE L, R |-> IF plain THEN "$" ELSE R, tail |-> tail,
